@@ -339,6 +339,34 @@ impl MinCfg {
     }
 }
 
+/// "Stored state" fault for the counter's directory: chunk files and possibly a table left
+/// by an earlier, interrupted count (`seed` 0 = a clean directory).
+pub fn stale_counter_files(out_dir: &Path, seed: u64, parts: u64, k: usize, real: &[u64]) -> bool {
+    if seed == 0 {
+        return false;
+    }
+    let mut r = verif_rt::rng::Rng::new(seed);
+    for _ in 0..r.usize(1, 12) {
+        let p = r.range(0, parts);
+        let c = r.range(0, 6);
+        let mut body = String::new();
+        for _ in 0..r.usize(0, 5) {
+            // half of the stale lines are about k-mers the run at hand really deals with
+            let code = if !real.is_empty() && r.chance(1, 2) {
+                real[r.below(real.len() as u64) as usize]
+            } else {
+                r.below(1u64 << (2 * k.min(31)))
+            };
+            body.push_str(&format!("{}\t{}\n", code, r.range(1, 9)));
+        }
+        std::fs::write(out_dir.join(format!("temp_kmers.part_{p}_chunk_{c}")), body).expect("stale chunk file");
+    }
+    if r.chance(1, 2) {
+        std::fs::write(out_dir.join("kmers.counts"), "1\t99\n2\t7\n").expect("stale table");
+    }
+    true
+}
+
 /// "Stored state" fault: before the run, put the remains of some earlier result at the
 /// output path (`seed` 0 = leave it absent).  What a run writes must not depend on it.
 pub fn stale_output(path: &Path, seed: u64) -> bool {
